@@ -27,6 +27,9 @@ var c15Inputs = []struct {
 	{id: "rejected-in-parse", src: "//go:build convergen\n\npackage p\n\ntype S struct{ A int }\n\ntype D struct{ A int }\n\ntype Convergen interface {\n\t// :style sideways\n\tConv(*S) *D\n}\n"},
 	{id: "rejected-in-build", src: "//go:build convergen\n\npackage p\n\ntype S struct{ A int }\n\ntype D struct{ A int }\n\ntype Convergen interface {\n\t// :style arg\n\t// :reverse\n\tConv(*S, int) *D\n}\n"},
 	{id: "rejected-at-format", src: "//go:build convergen\n\npackage p\n\ntype S struct{ A int }\n\ntype D struct{ A int }\n\ntype Convergen interface {\n\t// :recv type\n\tConv(*S) *D\n}\n"},
+	// a marked interface without methods beside an ordinary one: accepted today; whatever happens, a run that ends in an
+	// error (or dies) must not have touched the output (round 5, C15-m10)
+	{id: "accepted-empty-marked-interface", src: "//go:build convergen\n\npackage p\n\ntype S struct{ A int }\n\ntype D struct{ A int }\n\ntype Convergen interface {\n\tConv(*S) *D\n}\n\n// :convergen\ntype Later interface{}\n", accepted: true},
 	{id: "no-interface", src: "//go:build convergen\n\npackage p\n\ntype S struct{ A int }\n"},
 	{id: "syntax-error", src: "//go:build convergen\n\npackage p\n\ntype Convergen interface {\n\tConv(*S *D\n}\n"},
 	// the tree is its own module whose go.mod can resolve the imported module (replace) but does not require it:
@@ -49,9 +52,13 @@ type c15Case struct {
 	Out             int // 0 default path, 1 -out in another directory, 2 -out through a symbolic link to a directory followed by ".." (what the OS resolves is not what a lexical clean-up yields)
 	State           int // 0 absent, 1 present with old bytes, 2 parent directory missing, 3 path is a directory, 4 path below a regular file, 5 present and read-only file, 6 hard link to the setup file, 7 symbolic link to the setup file
 	FullOut         int // 1: stdout cannot be written (/dev/full), meaningful with -print
+	Via             int // 1: the input is named by $GOFILE only (as under go generate), no positional argument
 }
 
 func (c c15Case) id() string {
+	if c.Via == 1 {
+		return fmt.Sprintf("c15_%d_%d%d%d_%d_%d_%d_gofile", c.Input, c.Dry, c.Print, c.Log, c.Out, c.State, c.FullOut)
+	}
 	return fmt.Sprintf("c15_%d_%d%d%d_%d_%d_%d", c.Input, c.Dry, c.Print, c.Log, c.Out, c.State, c.FullOut)
 }
 
@@ -140,7 +147,9 @@ func c15Prepare(base string, c c15Case) (root, cwd string, args []string, outPat
 	if c.Out >= 1 || c.State == 2 || c.State == 4 {
 		args = append(args, "-out", outAsGiven)
 	}
-	args = append(args, "setup.go")
+	if c.Via == 0 {
+		args = append(args, "setup.go")
+	}
 	return root, cwd, args, outPath, logPath, true
 }
 
@@ -265,15 +274,18 @@ func init() {
 					for lg := 0; lg < 2; lg++ {
 						for out := 0; out < 3; out++ {
 							for st := 0; st < 8; st++ {
-								if !th && (in == 1 || in == 6 || in == 8 || st == 4 || st == 5 || (out == 1 && st == 3)) {
+								if !th && (in == 1 || in == 7 || in == 9 || st == 4 || st == 5 || (out == 1 && st == 3)) {
 									continue
 								}
 								if !th && st >= 6 && in > 2 {
 									continue
 								}
-								cases = append(cases, c15Case{in, dry, pr, lg, out, st, 0})
+								cases = append(cases, c15Case{in, dry, pr, lg, out, st, 0, 0})
+								if st <= 1 && out <= 1 && (th || in == 0 || in == 3) {
+									cases = append(cases, c15Case{in, dry, pr, lg, out, st, 0, 1})
+								}
 								if pr == 1 && st <= 1 && (th || in == 0 || in == 2) {
-									cases = append(cases, c15Case{in, dry, pr, lg, out, st, 1})
+									cases = append(cases, c15Case{in, dry, pr, lg, out, st, 1, 0})
 								}
 							}
 						}
@@ -320,6 +332,10 @@ func init() {
 				home := filepath.Join(root, "home")
 				tmp := filepath.Join(root, "tmp")
 				env := []string{"HOME=" + home, "TMPDIR=" + tmp}
+				if c.Via == 1 {
+					env = append(env, "GOFILE=setup.go")
+					feat += "|via=GOFILE"
+				}
 				exclude := func(rel string) bool {
 					// the `go` children of convergen write telemetry counters below $HOME/.config/go and
 					// use $HOME/.cache; these two directories are the only exclusions (DESIGN §2.3)
